@@ -61,6 +61,41 @@ def check(repo: Repo) -> Result:
             ok &= norm(b.get("registry")) == "self.registry" if b.get("registry") is not None else False
         res.check(ok, f"{m}:registry", fn.where(), f"the result of Unit.{m} must be created in the left operand's registry", "registry=self.registry", [norm(c)[:80] for c in calls], rid=r1)
 
+    # decision table of Unit * Unit and Unit / Unit over abstract units (each in a registry of its own): the result
+    # record is what the modelled Unit(...) call (or the operand that was copied) says
+    from engine.dtable import Rec
+    from rules import c08
+
+    for dunder, sym in (("__mul__", "*"), ("__truediv__", "/")):
+        fn = uo.func(f"Unit.{dunder}")
+        rows = c08.unit_op_table(repo, dunder)
+        wrong_reg, wrong_scale, asym = [], [], []
+        n_ret = 0
+        for (an, bn), (a_, b_, out) in rows.items():
+            if out.kind != "return":
+                continue
+            if not isinstance(out.value, Rec):
+                raise AnalysisError(f"{fn.where()}: Unit.{dunder}({an}, {bn}) returns something that is not a modelled unit: {out.value!r}")
+            n_ret += 1
+            r = out.value.attrs
+            if r.get("registry") is not a_.attrs["registry"]:
+                wrong_reg.append(f"{an} {sym} {bn} is created in {r.get('registry')}")
+            want = a_.attrs["base_value"] * b_.attrs["base_value"] if sym == "*" else a_.attrs["base_value"] / b_.attrs["base_value"]
+            got = r.get("base_value")
+            if not isinstance(got, float) or abs(got - want) > 1e-12 * abs(want):
+                wrong_scale.append(f"{an} {sym} {bn} has scale {got}, expected {want}")
+            if sym == "*":
+                o2 = rows[(bn, an)][2]
+                off2 = o2.value.attrs.get("base_offset") if o2.kind == "return" and isinstance(o2.value, Rec) else o2.kind
+                if off2 != r.get("base_offset"):
+                    asym.append(f"{an} * {bn} has offset {r.get('base_offset')} but {bn} * {an} has {off2}")
+        if n_ret < 20:
+            raise AnalysisError(f"{fn.where()}: decision table of Unit.{dunder} has only {n_ret} returning rows")
+        res.check(not wrong_reg, f"{dunder}:table-registry", fn.where(), f"Unit.{dunder} over {n_ret} returning operand pairs: the result lives in the left operand's registry" + (f" - {wrong_reg[0]}" if wrong_reg else ""), "left operand's registry", wrong_reg[:3], rid=r1)
+        res.check(not wrong_scale, f"{dunder}:table-scale", fn.where(), f"Unit.{dunder}: the scale of the result is the product / quotient of the operands' scales" + (f" - {wrong_scale[0]}" if wrong_scale else ""), found=wrong_scale[:3], rid=r1)
+        if sym == "*":
+            res.check(not asym, f"{dunder}:table-commutes", fn.where(), "u * v and v * u are equal units (same offset; equality reads scale, offset, dimension)" + (f" - {asym[0]}" if asym else ""), found=asym[:3], rid=r1)
+
     # R2: footprint of == and hash
     r2 = res.rule("C05-R2", "Unit.__eq__ reads exactly base_value, base_offset, dimensions (after isinstance); __hash__ reads exactly registry.unit_system_id and expr", floor=3)
     fn = uo.func("Unit.__eq__")
@@ -197,4 +232,8 @@ MUTANTS = [
     Mutant("cancel-scale-dropped", UO, "_cancel_mul", "            value = prod.base_value\n", "            value = 1.0\n", ("C05-R4",)),
     Mutant("cancel-nondimensionless", UO, "_cancel_mul", "if prod.dimensions == 1:", "if prod.dimensions == 1 or True:", ("C05-R4",)),
     Mutant("twin-eq-order", UO, "Unit.__eq__", "            and math.isclose(self.base_value, u.base_value)\n            and math.isclose(self.base_offset, u.base_offset)\n", "            and math.isclose(self.base_offset, u.base_offset)\n            and math.isclose(self.base_value, u.base_value)\n", (), benign=True),
+    Mutant("mul-offset-from-dimensionless-side", UO, "Unit.__mul__", "            if u.dimensions in (temperature, angle) and self.is_dimensionless:\n                base_offset = u.base_offset", "            if u.dimensions in (temperature, angle) and self.is_dimensionless:\n                base_offset = self.base_offset", ("C05-R1",)),
+    Mutant("mul-null-fastpath-right-registry", UO, "Unit.__mul__", "        base_offset = 0.0\n        if self.base_offset or u.base_offset:\n            if u.dimensions", "        if self.expr is sympy_one and self.base_value == 1.0:\n            return u.copy()\n        base_offset = 0.0\n        if self.base_offset or u.base_offset:\n            if u.dimensions", ("C05-R1",)),
+    Mutant("mul-null-fastpath-left-copy", UO, "Unit.__mul__", "        base_offset = 0.0\n        if self.base_offset or u.base_offset:\n            if u.dimensions", "        if u.expr is sympy_one and u.base_value == 1.0:\n            return self.copy()\n        base_offset = 0.0\n        if self.base_offset or u.base_offset:\n            if u.dimensions", (), benign=True),
+    Mutant("div-scale-multiplied", UO, "Unit.__truediv__", "base_value=(self.base_value / u.base_value)", "base_value=(self.base_value * u.base_value)", ("C05-R1",)),
 ]
